@@ -10,8 +10,17 @@ RULE = ("knots = closures of random braid words on 2-4 strands whose permutation
         "d z = 0, non-torsion class for h != 0, and the same cycles built on the Coq cube complex must be cycles; (ss) ss_invariant "
         "for c in {2,3} over Z (and c = H over F2[H], F3[H], Q[H]) on K, M, mirror K, reduced and unreduced, and after every single "
         "crossing change: ss(M)=ss(K), reduced=unreduced, ss(mirror)=-ss(K), ss(K-) <= ss(K+) <= ss(K-)+2; (lee) for random links the "
-        "homology with (h,t)=(1,0) over Z and (0,1) over Q is free of total rank 2^components. "
+        "homology with (h,t)=(1,0) over Z and (0,1) over Q is free of total rank 2^components; (sso) the VALUE ss_invariant(l, c, red) over i64 "
+        "and BigInt, c in {2,3}, reduced and unreduced, must equal the Coq oracle ss_spec (cube complex around degree 0, homology "
+        "coordinates from the verified homology calculator + SNF mirror, divisibility of Lee's class, 2d + w - r + 1) exactly, on table "
+        "knots up to 6 crossings and unknot diagrams, their mirrors, kinked / relabelled / reordered copies and closures of braid "
+        "words with at most 6 letters (the oracle skips a diagram when a chain group around degree 0 has more than 100 (quick) / 150 "
+        "(thorough) generators). "
         "non-trivial = knot with >= 3 crossings (cyc, ss) or link with >= 2 components (lee); distinct = distinct case lines")
+
+
+# companion property files: C06Ss = the definition-level oracle ss_spec for the value of the invariant
+MORE_PROPS = ["C06Ss"]
 
 
 def relations(case, impl):
@@ -59,6 +68,9 @@ def relations(case, impl):
 def equal(case, impl, model):
     if model in ("REL", "SKIP"):
         return True
+    if case.startswith("sso "):
+        # exact comparison of the integer; a panic of the library ("P") matches only a rejection (None) of the oracle
+        return impl == model or (impl == "P" and model == "NONE")
     # cyc: the cycles built on the definition must be cycles and as many as the library reports
     im = [dict(x.split("=") for x in seg.split()) for seg in impl.split(";")] if "PANIC" not in impl else []
     mo = [dict(x.split("=") for x in seg.split() if "=" in x) for seg in model.split(";")]
@@ -78,10 +90,10 @@ def nontrivial(case, impl):
 
 def run(ctx):
     ctx.equal = equal
-    obl = C.coq_obligations(ctx.pid, ["Extract/ExtractC06.vo"])
+    obl = C.coq_obligations(ctx.pid, ["Extract/ExtractC06.vo"], more_props=MORE_PROPS)
     extra = {}
     if ctx.thorough:
-        extra.update(C.coqchk(ctx.pid))
+        extra.update(C.coqchk(ctx.pid, more_props=MORE_PROPS))
     corr = C.correspondence(ctx, "c06", nontrivial, per_shard=3)
     ev = []
     if corr.get("ok"):
@@ -93,12 +105,19 @@ def run(ctx):
                 ev.append((key, text, {"case": c, "impl": a[:1500], "model": text}))
         extra["lee_cycles_checked_on_definition"] = sum(1 for m in model if m.startswith("h="))
         extra["crossing_changes_evaluated"] = sum(a.count(":") for c, a in zip(cases, impl) if c.startswith("ss "))
+        sso = [(c, a, m) for c, a, m in zip(cases, impl, model) if c.startswith("sso ")]
+        extra["ss_values_compared_with_oracle"] = sum(1 for c, a, m in sso if m not in ("SKIP", "NONE"))
+        extra["ss_values_nonzero_compared"] = sum(1 for c, a, m in sso if m not in ("SKIP", "NONE", "0"))
+        extra["ss_oracle_skipped_by_size"] = sum(1 for c, a, m in sso if m == "SKIP")
     return C.finish(ctx, "other", obl, corr, RULE, extra_cov=extra, assumptions=kh.KH_ASSUME + [
         "the invariance properties of the s-type invariant are theorems of the cited paper; they are evaluated on generated instances, not proved",
-        "no independent oracle for the value of ss itself (divisibility of the Lee class needs homology coordinates); its relations are checked"],
+        "the value of ss is compared with the definition-level oracle ss_spec only for diagrams whose chain groups around degree 0 have at most "
+        "100 (quick) / 150 (thorough) generators (knots up to about 6 crossings); for larger diagrams only the relations are checked"],
         explain=("Level 'other': relations of the property evaluated on the implementation's values for generated knots/moves/mirrors/crossing "
                  "changes; Lee's canonical chains rebuilt on the Coq cube complex (the definition) and checked to be cycles per instance; "
-                 "Coq lemmas: a.b = 0, a.a = h a, b.b = -h b, comul a = a(x)a, comul b = b(x)b for all h."), extra_violations=ev)
+                 "Coq lemmas: a.b = 0, a.a = h a, b.b = -h b, comul a = a(x)a, comul b = b(x)b for all h.  The value of ss_invariant is compared "
+                 "exactly with the Coq oracle ss_spec (Properties/C06Ss.v: divisibility well defined and independent of the homology coordinates, "
+                 "coordinates are homology coordinates by C07 + C09, ss = 2d + w - r + 1) on small knots."), extra_violations=ev)
 
 
 def replay(ctx, payload):
